@@ -294,6 +294,7 @@ def main():
         'known_finding_obligations': known_obls,
         'bounded_stand_ins': bounded_list,
         'bounded_obligations': bounded_obl,
+        'bounded_discharged': len([o for o in bounded_list if o['status'] == 'discharged']),
         'functions_under_contract': [x for r in results for x in r['extracted']],
         'rewrites_applied': [x for r in results for x in r['rewrites']],
         'dropped_on_extraction': [x for r in results for x in r['dropped']],
@@ -326,8 +327,9 @@ def main():
         print(l)
     for u in undecided:
         print('UNDECIDED: ' + u)
-    print('%s tier=%s obligations=%d discharged=%d known=%d violations=%d undecided=%d wall=%.1fs' % (
-        a.prop, tier, n_obl, discharged, len(known_hit), ev['violations'], len(undecided), time.time() - t0))
+    print('%s tier=%s proved=%d/%d bounded=%d/%d known=%d violations=%d undecided=%d wall=%.1fs' % (
+        a.prop, tier, discharged, n_obl, len([o for o in bounded_list if o['status'] == 'discharged']), len(bounded_list),
+        len(known_hit), ev['violations'], len(undecided), time.time() - t0))
     sys.exit(exit_code)
 
 
